@@ -399,6 +399,61 @@ def rule_interval_number(ctx, p, cfg, rid):
         bare_number(r, p.fn_unrolled(TIME_V + "visit_str"), "interval", "Second")
 
 
+def rule_interval_units(ctx, p, cfg, rid="L5"):
+    """second(s) .. year(s), singular and plural, in any case, each to its own unit; anything else is an error"""
+    with ctx.rule(rid, "interval unit table", cfg) as r:
+        g = p.fn_unrolled(TIME_V + "visit_str")
+        tests = tables.string_key_tests(g)
+        sinks = {}
+        for b, i, s in g.assigns():
+            rv = s["rv"]
+            if rv["k"] == "agg" and rv.get("adt") == INTERVAL:
+                sinks[b] = (rv["variant"], g._rvalue(rv, frozenset(), 30, b))
+        # the variant may also be chosen as its constructor (`let make: fn(i64) -> _ = if .. { Interval::Second } ..; make(n)`):
+        # each edge that picks a constructor is a sink of that variant, carrying the argument of the one call through the pointer
+        for c in g.indirect_calls():
+            pl = c.t.get("func", {}).get("copy") or c.t.get("func", {}).get("move")
+            if not pl or pl["p"] or not c.t.get("args"):
+                continue
+            cs_ = choice_sinks(g, q.guarded_defs(g, c.t["func"], chains=True)) or [(b, e) for b, e in g.root_defs(pl["l"])]
+            for b, e in cs_:
+                e = strip(e, casts=False)
+                if e[0] == "cast" and "ReifyFnPointer" in str(e[1]):
+                    e = strip(e[2])
+                if e[0] == "fnref" and e[1].startswith(INTERVAL + "::"):
+                    var = e[1].rsplit("::", 1)[-1]
+                    sinks[b] = (var, ("agg", INTERVAL, var, (("0", g.expr(c.t["args"][0])),)))
+        tab = tables.key_table(g, tests, list(sinks))
+        for key, want in TIME_TABLE.items():
+            vs = {sinks[s][0] for s in tab.get(key, [])}
+            r.require(vs == {want}, "unit:%s" % key, fn=g, detail="unit %r -> %s (expected %s)" % (key, sorted(vs), want))
+            for s in tab.get(key, []):
+                e = sinks[s][1]
+                val = dict(e[3]).get("0")
+                r.require(val is not None and any(x[0] == "call" and x[1].endswith("::parse") for x in walk(val)) and not any(x[0] == "bin" for x in walk(val)), "unit-carries-number:%s" % key, fn=g,
+                          detail="payload %s" % show(val, 4))
+        extra = sorted(set(tab) - set(TIME_TABLE))
+        r.require(not extra, "no-undocumented-units", fn=g, detail="extra unit names: %s" % extra)
+        for ft in tables.fallthrough_target(g, tests):
+            r.require(only_err_from(g, ft), "unknown-unit-rejected", fn=g, detail="fall-through reaches only Err")
+        r.floor("unit-keys", len(tab), 14)
+
+
+def rule_refresh_rate_parsing(ctx, p, cfg, rid="L6"):
+    """refresh_rate is parsed by humantime and a string it cannot parse is an error of the document, not an absent rate"""
+    with ctx.rule(rid, "refresh_rate via humantime", cfg) as r:
+        vs = [f for f in p.fns.values() if f.path.startswith("<<config::raw::de_duration::") and f.path.endswith("::visit_str")]
+        r.require(len(vs) == 1, "duration-visitor", detail="de_duration string visitor: %s" % [f.path for f in vs])
+        for f in vs:
+            e = f.local_expr(0)
+            hp = [x for x in walk(e) if x[0] == "call" and x[1] == "humantime::duration::parse_duration"]
+            r.require(bool(hp) and deep_strip(hp[0][2][0]) == ("param", 2), "parsed-by-humantime", fn=f, detail=show(e, 5))
+            r.require(e[0] == "call" and e[1] == "core::result::Result::<T, E>::map_err", "error-mapped-not-dropped", fn=f, detail="returns map_err(..) of the parse result")
+        # the RawConfig field uses it
+        users = [c.fn.path for c in p.all_calls("config::raw::de_duration")]
+        r.require(any("RawConfig" in u for u in users), "rawconfig-uses-de_duration", detail="callers: %s" % users[:3])
+
+
 def run_cfg(ctx, p, cfg):
     rule_integer_forms(ctx, p, cfg, "L8")
     rule_size_table(ctx, p, cfg, "L1")
@@ -471,60 +526,14 @@ def run_cfg(ctx, p, cfg):
                               fail_detail="`%s as %s` of a deserialised %s is not dominated by a range guard: %s" % (show(src, 3), to, fr, why))
         r.floor("casts-of-deserialised-values", n, 1)
 
-    with ctx.rule("L5", "interval unit table", cfg) as r:
-        g = p.fn_unrolled(TIME_V + "visit_str")
-        tests = tables.string_key_tests(g)
-        sinks = {}
-        for b, i, s in g.assigns():
-            rv = s["rv"]
-            if rv["k"] == "agg" and rv.get("adt") == INTERVAL:
-                sinks[b] = (rv["variant"], g._rvalue(rv, frozenset(), 30, b))
-        # the variant may also be chosen as its constructor (`let make: fn(i64) -> _ = if .. { Interval::Second } ..; make(n)`):
-        # each edge that picks a constructor is a sink of that variant, carrying the argument of the one call through the pointer
-        for c in g.indirect_calls():
-            pl = c.t.get("func", {}).get("copy") or c.t.get("func", {}).get("move")
-            if not pl or pl["p"] or not c.t.get("args"):
-                continue
-            cs_ = choice_sinks(g, q.guarded_defs(g, c.t["func"], chains=True)) or [(b, e) for b, e in g.root_defs(pl["l"])]
-            for b, e in cs_:
-                e = strip(e, casts=False)
-                if e[0] == "cast" and "ReifyFnPointer" in str(e[1]):
-                    e = strip(e[2])
-                if e[0] == "fnref" and e[1].startswith(INTERVAL + "::"):
-                    var = e[1].rsplit("::", 1)[-1]
-                    sinks[b] = (var, ("agg", INTERVAL, var, (("0", g.expr(c.t["args"][0])),)))
-        tab = tables.key_table(g, tests, list(sinks))
-        for key, want in TIME_TABLE.items():
-            vs = {sinks[s][0] for s in tab.get(key, [])}
-            r.require(vs == {want}, "unit:%s" % key, fn=g, detail="unit %r -> %s (expected %s)" % (key, sorted(vs), want))
-            for s in tab.get(key, []):
-                e = sinks[s][1]
-                val = dict(e[3]).get("0")
-                r.require(val is not None and any(x[0] == "call" and x[1].endswith("::parse") for x in walk(val)) and not any(x[0] == "bin" for x in walk(val)), "unit-carries-number:%s" % key, fn=g,
-                          detail="payload %s" % show(val, 4))
-        extra = sorted(set(tab) - set(TIME_TABLE))
-        r.require(not extra, "no-undocumented-units", fn=g, detail="extra unit names: %s" % extra)
-        for ft in tables.fallthrough_target(g, tests):
-            r.require(only_err_from(g, ft), "unknown-unit-rejected", fn=g, detail="fall-through reaches only Err")
-        r.floor("unit-keys", len(tab), 14)
+    rule_interval_units(ctx, p, cfg, "L5")
 
     from rules import common
     rule_no_length_verdict(ctx, p, cfg, "L10")
     common.rule_visitor_entry_points(ctx, p, cfg, "L9a", "trigger::size::deserialize_limit::V", ("visit_u64", "visit_i64", "visit_str"), "size limit")
     common.rule_visitor_entry_points(ctx, p, cfg, "L9b", "trigger::time::TimeTriggerInterval", ("visit_u64", "visit_i64", "visit_str"), "interval")
     common.rule_visitor_entry_points(ctx, p, cfg, "L9c", "config::raw::de_duration::", ("visit_str",), "refresh_rate")
-    with ctx.rule("L6", "refresh_rate via humantime", cfg) as r:
-        vs = [f for f in p.fns.values() if f.path.startswith("<<config::raw::de_duration::") and f.path.endswith("::visit_str")]
-        r.require(len(vs) == 1, "duration-visitor", detail="de_duration string visitor: %s" % [f.path for f in vs])
-        for f in vs:
-            e = f.local_expr(0)
-            hp = [x for x in walk(e) if x[0] == "call" and x[1] == "humantime::duration::parse_duration"]
-            r.require(bool(hp) and deep_strip(hp[0][2][0]) == ("param", 2), "parsed-by-humantime", fn=f, detail=show(e, 5))
-            r.require(e[0] == "call" and e[1] == "core::result::Result::<T, E>::map_err", "error-mapped-not-dropped", fn=f, detail="returns map_err(..) of the parse result")
-        # the RawConfig field uses it
-        users = [c.fn.path for c in p.all_calls("config::raw::de_duration")]
-        r.require(any("RawConfig" in u for u in users), "rawconfig-uses-de_duration", detail="callers: %s" % users[:3])
-
+    rule_refresh_rate_parsing(ctx, p, cfg, "L6")
 
 def cast_guarded(f, block, src, fr, to):
     s = deep_strip(src)
